@@ -9,7 +9,7 @@ on handle `i` (up to the token table).  The others (`push_aslice`, sub-slice pus
 blocks of `Proofs/IovecAbs.lean` / `IovecAnch.lean` (`Pushed`, `World.pushHeld_total`, `World.readN_spec`,
 `IovInv.set_arena`), the arena-swapping ones with the world-level arena invariant `ArenaInv.below`.
 -/
-import Woodpile.Proofs.IovecWFrame
+import Woodpile.Proofs.IovecWPriv
 
 namespace Woodpile.Iovec
 open Woodpile.Arena
@@ -27,19 +27,19 @@ theorem GW.step_some' {g g' : GW} {op : WOp} {r : WRet} (h : g.step op = some (g
 
 /-- What is proved about the handle a step names. -/
 def TargetGoal (g : GW) (op : WOp) (w' : World) (i : Nat) : Prop :=
-  (∀ x, w'.iov i = some x → IovInv w' x) ∧
+  (∀ x, w'.iov i = some x → W.IovInv w' x) ∧
   absW ⟨w', g.ghost' op, g.nid' op⟩ i = (PW.step g.pw op (g.w.ret op)).pipe i ∧ PW.ok g.pw op (g.w.ret op)
 
 /-- A call of the single-iovec vocabulary: reduce to `step_refines`. -/
 theorem target_via_op {g : GW} {op : WOp} {w' : World} {i : Nat} (o o2 : Op) (r' r2 : Ret) (s' : State)
-    {v : Iov} (hv : g.w.iov i = some v) (hinv : IovInv g.w v)
+    {v : Iov} (hv : g.w.iov i = some v) (hinv : W.IovInv g.w v)
     (hstep : step i (g.st i) o = some (s', r'))
-    (hw : ∀ x, s'.w.iov i = some x → w'.iov i = some x ∧ (IovInv s'.w x → IovInv w' x) ∧ absCells w' x = absCells s'.w x)
+    (hw : ∀ x, s'.w.iov i = some x → w'.iov i = some x ∧ (W.IovInv s'.w x → W.IovInv w' x) ∧ absCells w' x = absCells s'.w x)
     (hgh : g.ghost' op i = s'.ghost) (hnid : g.nid' op i = s'.nextId)
     (hasop : op.asOp g.w.brefs (g.w.ret op) = some (i, o2, r2))
     (hspec : ∀ p, specStep p o2 r2 = specStep p o r' ∧ (specOk p o r' → specOk p o2 r2)) :
     TargetGoal g op w' i := by
-  obtain ⟨⟨x, hx, hix⟩, habs, hok⟩ := step_refines i (g.st i) s' o r' ⟨v, hv, hinv⟩ hstep
+  obtain ⟨⟨x, hx, hix⟩, habs, hok⟩ := W.step_refines i (g.st i) s' o r' ⟨v, hv, hinv⟩ hstep
   obtain ⟨h1, h2, h3⟩ := hw x hx
   refine ⟨?_, ?_, ?_⟩
   · intro y hy; rw [h1] at hy; cases hy; exact h2 hix
@@ -53,9 +53,9 @@ theorem target_via_op {g : GW} {op : WOp} {w' : World} {i : Nat} (o o2 : Op) (r'
 
 /-- A call that appends `bytes` (possibly none) to the named iovec. -/
 theorem target_pushed {g : GW} {op : WOp} {w' : World} {i : Nat} {v v' : Iov} (bytes : List UInt8)
-    (hv : g.w.iov i = some v) (hv' : w'.iov i = some v') (hp : Pushed g.w w' v v' bytes)
+    (hv : g.w.iov i = some v) (hv' : w'.iov i = some v') (hp : W.Pushed g.w w' v v' bytes)
     (hgh : g.ghost' op i = g.ghost i) (hnid : g.nid' op i = g.nid i) :
-    (∀ x, w'.iov i = some x → IovInv w' x) ∧
+    (∀ x, w'.iov i = some x → W.IovInv w' x) ∧
     absW ⟨w', g.ghost' op, g.nid' op⟩ i = (absW g i).append bytes := by
   refine ⟨?_, ?_⟩
   · intro y hy; rw [hv'] at hy; cases hy; exact hp.inv
@@ -95,20 +95,20 @@ theorem whole_flatMap (bufs : List (List UInt8)) : (bufs.map Borrow.whole).flatM
 
 /-! ### The calls of the single-iovec vocabulary -/
 
-theorem iovInv_addBref {w : World} {v : Iov} (b : Backref) (h : IovInv w v) : IovInv (w.addBref b).1 v :=
+theorem iovInv_addBref {w : World} {v : Iov} (b : Backref) (h : W.IovInv w v) : W.IovInv (w.addBref b).1 v :=
   h.of_world (fun _ => Nat.le_refl _) (Nat.le_refl _)
 
 theorem absCells_addBref (w : World) (b : Backref) (v : Iov) : absCells (w.addBref b).1 v = absCells w v :=
   absCells_congr (fun _ _ => rfl)
 
 theorem target_oplike {g : GW} {op : WOp} {w' : World} {i : Nat} {v : Iov}
-    (h1 : g.w.step op = some w') (hv : g.w.iov i = some v) (hinv : IovInv g.w v)
+    (h1 : g.w.step op = some w') (hv : g.w.iov i = some v) (hinv : W.IovInv g.w v)
     (hop : (∃ bs, op = .push i bs) ∨ (∃ bs, op = .pushBorrowed i bs) ∨ (∃ bs, op = .pushCopy i bs) ∨
       (∃ bufs, op = .extend i bufs) ∨ (∃ pat, op = .register i pat) ∨ (∃ bi bs, op = .backfill i bi bs) ∨
       (∃ k, op = .consume i k) ∨ (∃ k, op = .advance i k) ∨ (∃ k, op = .read i k) ∨ op = .pop i ∨ op = .clear i) :
     TargetGoal g op w' i := by
   have triv : ∀ (s' : State), s'.w = w' → ∀ x, s'.w.iov i = some x →
-      w'.iov i = some x ∧ (IovInv s'.w x → IovInv w' x) ∧ absCells w' x = absCells s'.w x := by
+      w'.iov i = some x ∧ (W.IovInv s'.w x → W.IovInv w' x) ∧ absCells w' x = absCells s'.w x := by
     intro s' e x hx; subst e; exact ⟨hx, id, rfl⟩
   rcases hop with ⟨bs, rfl⟩ | ⟨bs, rfl⟩ | ⟨bs, rfl⟩ | ⟨bufs, rfl⟩ | ⟨pat, rfl⟩ | ⟨bi, bs, rfl⟩ | ⟨k, rfl⟩ |
     ⟨k, rfl⟩ | ⟨k, rfl⟩ | rfl | rfl
@@ -245,7 +245,7 @@ theorem target_oplike {g : GW} {op : WOp} {w' : World} {i : Nat} {v : Iov}
 
 /-- A call the reference treats as the identity or as a whole-pipe move: nothing to say about `ok`. -/
 theorem goal_struct {g : GW} {op : WOp} {w' : World} {j : Nat} (hasop : op.asOp g.w.brefs (g.w.ret op) = none)
-    (hinv : ∀ x, w'.iov j = some x → IovInv w' x)
+    (hinv : ∀ x, w'.iov j = some x → W.IovInv w' x)
     (habs : absW ⟨w', g.ghost' op, g.nid' op⟩ j = (g.pw.structStep op).pipe j) : TargetGoal g op w' j := by
   refine ⟨hinv, ?_, ?_⟩
   · rw [habs]; simp only [PW.step, GW.pw, hasop]
@@ -254,7 +254,7 @@ theorem goal_struct {g : GW} {op : WOp} {w' : World} {j : Nat} (hasop : op.asOp 
 /-- … the identity on the named handle, from a `Pushed … []`. -/
 theorem goal_id {g : GW} {op : WOp} {w' : World} {i : Nat} {v v' : Iov}
     (hasop : op.asOp g.w.brefs (g.w.ret op) = none) (hstruct : g.pw.structStep op = g.pw)
-    (hv : g.w.iov i = some v) (hv' : w'.iov i = some v') (hp : Pushed g.w w' v v' [])
+    (hv : g.w.iov i = some v) (hv' : w'.iov i = some v') (hp : W.Pushed g.w w' v v' [])
     (hgh : g.ghost' op i = g.ghost i) (hnid : g.nid' op i = g.nid i) : TargetGoal g op w' i := by
   obtain ⟨h1, h2⟩ := target_pushed (op := op) [] hv hv' hp hgh hnid
   refine goal_struct hasop h1 ?_
@@ -264,7 +264,7 @@ theorem goal_id {g : GW} {op : WOp} {w' : World} {i : Nat} {v v' : Iov}
 /-- … appending `bytes` to the named handle, from a `Pushed … bytes`. -/
 theorem goal_append {g : GW} {op : WOp} {w' : World} {i : Nat} {v v' : Iov} (bytes : List UInt8)
     (hasop : op.asOp g.w.brefs (g.w.ret op) = some (i, .pushCopy bytes, .unit))
-    (hv : g.w.iov i = some v) (hv' : w'.iov i = some v') (hp : Pushed g.w w' v v' bytes)
+    (hv : g.w.iov i = some v) (hv' : w'.iov i = some v') (hp : W.Pushed g.w w' v v' bytes)
     (hgh : g.ghost' op i = g.ghost i) (hnid : g.nid' op i = g.nid i) : TargetGoal g op w' i := by
   obtain ⟨h1, h2⟩ := target_pushed (op := op) bytes hv hv' hp hgh hnid
   refine ⟨h1, ?_, ?_⟩
@@ -272,9 +272,9 @@ theorem goal_append {g : GW} {op : WOp} {w' : World} {i : Nat} {v v' : Iov} (byt
   · simp only [PW.ok, GW.pw, hasop, specOk]
 
 /-- Changing parts of the world the abstraction does not read. -/
-theorem Pushed.of_same {w w' w'' : World} {v v' : Iov} {bytes : List UInt8} (h : Pushed w w' v v' bytes)
+theorem W.Pushed.of_same {w w' w'' : World} {v v' : Iov} {bytes : List UInt8} (h : W.Pushed w w' v v' bytes)
     (hheap : w''.heap = w'.heap) (hexts : w''.exts = w'.exts) (hnext : w''.next = w'.next)
-    (hpol : w''.pol = w'.pol) (htun : w''.tun = w'.tun) : Pushed w w'' v v' bytes :=
+    (hpol : w''.pol = w'.pol) (htun : w''.tun = w'.tun) : W.Pushed w w'' v v' bytes :=
   have hb : ∀ s, w''.sliceBytes s = w'.sliceBytes s := fun s => sliceBytes_congr s hheap hexts
   { inv := h.inv.of_world (fun b => by rw [hexts]; exact Nat.le_refl _) (by rw [hnext]; exact Nat.le_refl _)
     cells := by rw [absCells_congr (fun s _ => hb s)]; exact h.cells
@@ -313,26 +313,26 @@ theorem extend_single (w : World) (i : Nat) (v : Iov) (s : Slice) (hv : w.iov i 
     cases w.pushBorrowed i s <;> simp
 
 theorem World.pushBorrowed_lent (w : World) (i : Nat) (v : Iov) (s : Slice) (bs : List UInt8)
-    (hv : w.iov i = some v) (hinv : IovInv w v) (hl : LentOk w s bs) :
-    ∃ w' v', w.pushBorrowed i s = some w' ∧ w'.iov i = some v' ∧ Pushed w w' v v' bs := by
-  obtain ⟨w', v', h1, h2, h3⟩ := World.extend_spec i [(s, bs)] w v hv hinv (by simpa using hl)
+    (hv : w.iov i = some v) (hinv : W.IovInv w v) (hl : LentOk w s bs) :
+    ∃ w' v', w.pushBorrowed i s = some w' ∧ w'.iov i = some v' ∧ W.Pushed w w' v v' bs := by
+  obtain ⟨w', v', h1, h2, h3⟩ := W.World.extend_spec i [(s, bs)] w v hv hinv (by simpa using hl)
   simp only [List.map_cons, List.map_nil] at h1
   rw [extend_single w i v s hv] at h1
   exact ⟨w', v', h1, h2, by simpa using h3⟩
 
 theorem World.push_lent (w : World) (i : Nat) (v : Iov) (s : Slice) (bs : List UInt8)
-    (hv : w.iov i = some v) (hinv : IovInv w v) (hl : LentOk w s bs) :
-    ∃ w' v', w.push i s = some w' ∧ w'.iov i = some v' ∧ Pushed w w' v v' bs := by
+    (hv : w.iov i = some v) (hinv : W.IovInv w v) (hl : LentOk w s bs) :
+    ∃ w' v', w.push i s = some w' ∧ w'.iov i = some v' ∧ W.Pushed w w' v v' bs := by
   rcases World.push_eq w i v s hv with h | h
   · rw [h, hl.bytes]
-    obtain ⟨w', v', h1, h2, h3, _⟩ := World.pushCopy_total w i v bs hv hinv
+    obtain ⟨w', v', h1, h2, h3, _⟩ := W.World.pushCopy_total w i v bs hv hinv
     exact ⟨w', v', h1, h2, h3⟩
   · rw [h]; exact World.pushBorrowed_lent w i v s bs hv hinv hl
 
 /-! #### the remaining calls on a live handle -/
 
 theorem target_other {g : GW} {op : WOp} {w' : World} {caps : Nat → Nat} {i : Nat} {v : Iov} (hg : GReach g.w caps)
-    (h1 : g.w.step op = some w') (hv : g.w.iov i = some v) (hinv : IovInv g.w v) (hpf : PushFresh g.w op)
+    (h1 : g.w.step op = some w') (hv : g.w.iov i = some v) (hinv : W.IovInv g.w v)
     (hop : (∃ k, op = .reserve i k) ∨ op = .flush i ∨ (∃ ai, op = .swapArena i ai) ∨ op = .takeArena i ∨
       (∃ c a s sc, op = .readNIov i c a s sc) ∨ (∃ si, op = .pushASlice i si) ∨
       (∃ b off len, op = .pushAt i b off len) ∨ (∃ b off len, op = .pushBorrowedAt i b off len) ∨
@@ -343,7 +343,7 @@ theorem target_other {g : GW} {op : WOp} {w' : World} {caps : Nat → Nat} {i : 
   rcases hop with ⟨k, rfl⟩ | rfl | ⟨ai, rfl⟩ | rfl | ⟨c, a, src, sc, rfl⟩ | ⟨si, rfl⟩ | ⟨b, off, len, rfl⟩ |
     ⟨b, off, len, rfl⟩ | rfl | rfl | rfl
   · -- reserve
-    obtain ⟨s', r, hstep, ⟨x, hx, hix⟩, habs, _⟩ := refines_reserve i (g.st i) k ⟨v, hv, hinv⟩
+    obtain ⟨s', r, hstep, ⟨x, hx, hix⟩, habs, _⟩ := W.refines_reserve i (g.st i) k ⟨v, hv, hinv⟩
     have hw' : some s'.w = some w' := by
       rw [← h1]
       simp only [step, GW.st, hv, Option.some.injEq, Prod.mk.injEq] at hstep
@@ -359,7 +359,7 @@ theorem target_other {g : GW} {op : WOp} {w' : World} {caps : Nat → Nat} {i : 
     rw [abs_eq i s' x hx, hgn.1, hgn.2] at habs
     exact habs
   · -- flush
-    obtain ⟨s', r, hstep, ⟨x, hx, hix⟩, habs, _⟩ := refines_flush i (g.st i) ⟨v, hv, hinv⟩
+    obtain ⟨s', r, hstep, ⟨x, hx, hix⟩, habs, _⟩ := W.refines_flush i (g.st i) ⟨v, hv, hinv⟩
     have hw' : some s'.w = some w' := by
       rw [← h1]
       simp only [step, GW.st, hv, Option.some.injEq, Prod.mk.injEq] at hstep
@@ -382,18 +382,18 @@ theorem target_other {g : GW} {op : WOp} {w' : World} {caps : Nat → Nat} {i : 
       rw [har] at h1
       simp only [Option.some.injEq] at h1
       subst h1
-      have hinv' : IovInv ((g.w.setArena ai (some v.arena)).setIov i (some { v with arena := ar })) { v with arena := ar } :=
+      have hinv' : W.IovInv ((g.w.setArena ai (some v.arena)).setIov i (some { v with arena := ar })) { v with arena := ar } :=
         hinv.set_arena ar rfl (Nat.le_refl _) (fun ca hca => ⟨hwi.arenaOk ai ar har ca hca, fun s hs c hc hcc =>
           hai.below (.arena ai) ca s (by simp [World.cacheAt, har, hca]) (Or.inl ⟨i, v, hv, hs⟩) (by rw [hc, hcc])⟩)
-      exact goal_id rfl rfl hv (by simp) (Pushed.of_frame_arena ar hinv' (fun _ _ => rfl) rfl rfl) rfl rfl
+      exact goal_id rfl rfl hv (by simp) (W.Pushed.of_frame_arena ar hinv' (fun _ _ => rfl) rfl rfl) rfl rfl
   · -- takeArena
     simp only [World.step, hv, Option.some.injEq] at h1
     subst h1
-    have hinv' : IovInv ((g.w.setIov i (some { v with arena := ⟨none⟩ })).addArena v.arena).1 { v with arena := ⟨none⟩ } :=
+    have hinv' : W.IovInv ((g.w.setIov i (some { v with arena := ⟨none⟩ })).addArena v.arena).1 { v with arena := ⟨none⟩ } :=
       hinv.set_arena ⟨none⟩ rfl (Nat.le_refl _) (by intro ca hca; cases hca)
-    exact goal_id rfl rfl hv (by simp) (Pushed.of_frame_arena ⟨none⟩ hinv' (fun _ _ => rfl) rfl rfl) rfl rfl
+    exact goal_id rfl rfl hv (by simp) (W.Pushed.of_frame_arena ⟨none⟩ hinv' (fun _ _ => rfl) rfl rfl) rfl rfl
   · -- readNIov
-    obtain ⟨w1, ar', res, hrn, hv1, _, hpush, _⟩ := World.readN_spec g.w i v ⟨src, sc⟩ c a hv hinv
+    obtain ⟨w1, ar', res, hrn, hv1, _, hpush⟩ := W.World.readN_spec g.w i v ⟨src, sc⟩ c a hv hinv
     simp only [World.step, World.readNIov, hv, hrn, hv1] at h1
     cases res with
     | ok x =>
@@ -412,8 +412,8 @@ theorem target_other {g : GW} {op : WOp} {w' : World} {caps : Nat → Nat} {i : 
       rw [ha] at h1
       simp only at h1
       have hv0 : (g.w.setASlice si none).iov i = some v := by simpa using hv
-      have hinv0 : IovInv (g.w.setASlice si none) v := hinv.of_world (fun _ => Nat.le_refl _) (Nat.le_refl _)
-      have hp0 : Pushed g.w (g.w.setASlice si none) v v [] := Pushed.of_frame hinv hinv0 (fun _ _ => rfl) rfl rfl
+      have hinv0 : W.IovInv (g.w.setASlice si none) v := hinv.of_world (fun _ => Nat.le_refl _) (Nat.le_refl _)
+      have hp0 : W.Pushed g.w (g.w.setASlice si none) v v [] := W.Pushed.of_frame hinv hinv0 (fun _ _ => rfl) rfl rfl
       have hasop : (WOp.pushASlice i si).asOp g.w.brefs (g.w.ret (.pushASlice i si)) =
           some (i, .pushCopy (g.w.sliceBytes x.slice), .unit) := by
         simp [WOp.asOp, World.ret, ha]
@@ -429,17 +429,22 @@ theorem target_other {g : GW} {op : WOp} {w' : World} {caps : Nat → Nat} {i : 
           cases hr : x.slice.region with
           | chunk k => exact ⟨k, rfl⟩
           | ext b => exact absurd (hok.extEmpty b hr) h0
-        have hheld : HeldOk (g.w.setASlice si none) v x.slice := by
-          refine ⟨⟨cx, hcx⟩, ?_, fun y hy => hpf i si v x rfl hv ha y hy⟩
-          intro c' hc'
-          refine ⟨hwi.hasSlice_lt (hasSlice_aslice ha) hc', ?_⟩
-          intro ca hca hcc
-          exact hai.below (.iov i) ca x.slice (by rw [cacheAt_iov hv]; exact hca) (hasSlice_aslice ha) (by rw [hc', hcc])
-        obtain ⟨w1, v1, g1, g2, g3, _, _⟩ := World.pushHeld_total (g.w.setASlice si none) i v x.slice
+        have hheld : W.HeldOk (g.w.setASlice si none) v x.slice := by
+          refine ⟨⟨cx, hcx⟩, ?_, ?_⟩
+          · intro c' hc'
+            refine ⟨hwi.hasSlice_lt (hasSlice_aslice ha) hc', ?_⟩
+            intro ca hca hcc
+            exact hai.below (.iov i) ca x.slice (by rw [cacheAt_iov hv]; exact hca) (hasSlice_aslice ha) (by rw [hc', hcc])
+          · -- a detached slice covers no pending placeholder range (`APriv`)
+            intro e he t ht hreg
+            obtain ⟨key, info⟩ := e
+            obtain ⟨k', hk', hpr⟩ := pendingRange_of_target (hg.base.wf i v hv) he (hinv.br_ok _ he).idx_ge ht
+            exact hg.base.apriv i v key info k' _ _ hv he hpr x.slice ⟨si, x, ha, rfl⟩ (by rw [hreg, hk'])
+        obtain ⟨w1, v1, g1, g2, g3, _⟩ := W.World.pushHeld_total (g.w.setASlice si none) i v x.slice
           (g.w.sliceBytes x.slice) hv0 hinv0 hheld rfl
         rw [g1] at h1
         simp only at h1
-        obtain ⟨m1, m2⟩ := World.pushAnchor_spec w1 i v1 x.anchor g2 g3.inv
+        obtain ⟨m1, m2⟩ := W.World.pushAnchor_spec w1 i v1 x.anchor g2 g3.inv
         rw [m1] at h1
         simp only [Option.some.injEq] at h1
         subst h1
@@ -469,7 +474,7 @@ theorem target_other {g : GW} {op : WOp} {w' : World} {caps : Nat → Nat} {i : 
     simp only [World.step, World.clone, hv, Option.some.injEq] at h1
     subst h1
     have hin : i ≠ g.w.iovs.length := Nat.ne_of_lt (iov_lt_of_some hv)
-    have hinv' : IovInv (g.w.addIov { v with arena := ⟨none⟩ }).1 v := hinv.of_world (fun _ => Nat.le_refl _) (Nat.le_refl _)
+    have hinv' : W.IovInv (g.w.addIov { v with arena := ⟨none⟩ }).1 v := hinv.of_world (fun _ => Nat.le_refl _) (Nat.le_refl _)
     refine goal_struct rfl (fun y hy => by simp [hin, hv] at hy; subst hy; exact hinv') ?_
     rw [absW_live _ i v (by simp [hin, hv])]
     simp only [GW.ghost', GW.nid', PW.structStep, GW.pw, fupd_ne _ _ hin]
@@ -490,7 +495,7 @@ theorem target_other {g : GW} {op : WOp} {w' : World} {caps : Nat → Nat} {i : 
       rw [iov_addIov, hlen, if_neg hin]; simp
     refine goal_struct rfl (fun y hy => ?_) ?_
     · rw [hiov] at hy; cases hy
-      exact IovInv.empty _ ⟨none⟩ (by intro ca hca; cases hca)
+      exact W.IovInv.empty _ ⟨none⟩ (by intro ca hca; cases hca)
     · rw [absW_live _ i Iov.empty hiov]
       simp [GW.ghost', GW.nid', PW.structStep, GW.pw, absCells, Iov.empty, mkCells, Woodpile.Pipe.empty]
 
@@ -521,7 +526,7 @@ theorem flat_of_lent (w : World) (l : List (Slice × List UInt8)) (h : ∀ p ∈
 /-- `new_from_slices`: the fresh iovec satisfies the invariant and holds exactly the bytes of the buffers. -/
 theorem newFromSlices_spec (w : World) (bufs : List (List UInt8)) :
     ∃ vn, ((w.addExts bufs).1.newFromSlices (w.addExts bufs).2 ⟨none⟩).1.iov w.iovs.length = some vn ∧
-      IovInv ((w.addExts bufs).1.newFromSlices (w.addExts bufs).2 ⟨none⟩).1 vn ∧
+      W.IovInv ((w.addExts bufs).1.newFromSlices (w.addExts bufs).2 ⟨none⟩).1 vn ∧
       absCells ((w.addExts bufs).1.newFromSlices (w.addExts bufs).2 ⟨none⟩).1 vn = bufs.flatten.map Cell.byte := by
   obtain ⟨l, h1, h2, h3⟩ := lendAll_spec w (bufs.map Borrow.whole)
   rw [← addExts_lendAll] at h1 h3
@@ -546,19 +551,14 @@ theorem newFromSlices_spec (w : World) (bufs : List (List UInt8)) :
   refine ⟨vn, ?_, ?_, ?_⟩
   · rw [hw', iov_addIov, hlen]; simp
   · rw [hw']
-    refine IovInv.of_world (w := w1) ?_ (fun _ => Nat.le_refl _) (Nat.le_refl _)
+    refine W.IovInv.of_world (w := w1) ?_ (fun _ => Nat.le_refl _) (Nat.le_refl _)
     exact
       { slices_ok := by
           intro s hs
           obtain ⟨p, hp, rfl, hpos⟩ := hmem s hs
           have hl := h3 p hp
           exact hl.ok (by intro e; have := hl.len; rw [e] at this; simp at this; omega) _
-        ordered := by
-          apply pairwise_of_forall_mem
-          intro a ha b _ c hc
-          obtain ⟨p, hp, rfl, _⟩ := hmem a ha
-          obtain ⟨b', hb'⟩ := (h3 p hp).ext
-          rw [hb'] at hc; cases hc
+        pend_disj := by intro e he; cases he
         size_eq := by
           show 0 + sumLens fl = (fl.map (·.len)).foldl (· + ·) 0
           rw [foldl_add_eq_sum]; simp [sumLens]
@@ -587,7 +587,7 @@ theorem created_goal {g : GW} {op : WOp} {w' : World} {caps : Nat → Nat} (hg :
     subst h1
     refine goal_struct rfl (fun y hy => ?_) ?_
     · simp at hy; subst hy
-      exact IovInv.empty _ ⟨none⟩ (by intro ca hca; cases hca)
+      exact W.IovInv.empty _ ⟨none⟩ (by intro ca hca; cases hca)
     · rw [absW_live _ _ Iov.empty (by simp)]
       simp [GW.ghost', GW.nid', PW.structStep, GW.pw, absCells, Iov.empty, mkCells, Woodpile.Pipe.empty]
   | newFromArena a =>
@@ -602,7 +602,7 @@ theorem created_goal {g : GW} {op : WOp} {w' : World} {caps : Nat → Nat} (hg :
       refine goal_struct rfl (fun y hy => ?_) ?_
       · rw [iov_addIov, hlen, if_pos rfl] at hy
         cases hy
-        exact IovInv.empty _ ar (fun ca hca => hwi.arenaOk a ar har ca hca)
+        exact W.IovInv.empty _ ar (fun ca hca => hwi.arenaOk a ar har ca hca)
       · rw [absW_live _ _ { Iov.empty with arena := ar } (by rw [iov_addIov, hlen, if_pos rfl])]
         simp [GW.ghost', GW.nid', PW.structStep, GW.pw, absCells, Iov.empty, mkCells, Woodpile.Pipe.empty]
   | newFromSlices bufs =>
@@ -639,7 +639,7 @@ theorem created_goal {g : GW} {op : WOp} {w' : World} {caps : Nat → Nat} (hg :
       rw [hv] at h1
       simp only [Option.some.injEq] at h1
       subst h1
-      have hinv' : IovInv (g.w.addIov { v with arena := ⟨none⟩ }).1 { v with arena := ⟨none⟩ } :=
+      have hinv' : W.IovInv (g.w.addIov { v with arena := ⟨none⟩ }).1 { v with arena := ⟨none⟩ } :=
         (hall i v hv).set_arena ⟨none⟩ rfl (Nat.le_refl _) (by intro ca hca; cases hca)
       refine goal_struct rfl (fun y hy => by simp at hy; subst hy; exact hinv') ?_
       rw [absW_live _ _ { v with arena := ⟨none⟩ } (by simp)]
